@@ -241,6 +241,19 @@ impl BatchSender {
     }
 }
 
+/// Verification hook: read-only copy of the queued datagrams and their
+/// tracking sequence numbers, in queue order.
+#[cfg(feature = "verif-hooks")]
+impl BatchSender {
+    pub fn verif_queue_snapshot(&self) -> Vec<(Vec<u8>, Option<u32>)> {
+        self.queue
+            .iter()
+            .zip(self.sequences.iter())
+            .map(|(d, s)| (d.to_vec(), *s))
+            .collect()
+    }
+}
+
 #[cfg(test)]
 mod tests {
     use super::*;
